@@ -1,6 +1,7 @@
 package store
 
 import (
+	"github.com/shopspring/decimal"
 	"strconv"
 
 	pbsubstreams "github.com/streamingfast/substreams/pb/sf/substreams/v1"
@@ -139,7 +140,11 @@ func vSetFromStored(p int, st *vState, i int, stored []byte) {
 		sym.Unreachable("stored-value-tagged")
 		return
 	}
-	if vIsFloat(p) {
+	if vIsDecimal(p) {
+		d, err := decimal.NewFromString(string(payload))
+		sym.Assert(err == nil, "stored-value-parses")
+		st.dnum[i], st.isSet[i] = d, isSet
+	} else if vIsFloat(p) {
 		f, err := strconv.ParseFloat(string(payload), 64)
 		sym.Assert(err == nil, "stored-value-parses")
 		st.fnum[i], st.isSet[i] = f, isSet
